@@ -12,7 +12,7 @@ from mc.run import Stats, explore
 ASSUME = c03.ASSUME[:2] + [
     "frame clauses allow 1 s for the rounding of reported times",
     "frame-overlap: the portions of all tasks sharing a slot of a resource must fit disjointly inside their reported intervals (interval feasibility, 1 s per task tolerance)",
-    "milestone clause: forward milestones without own/inherited pin must sit at max(pred.end|start + gap); gap is calendar time",
+    "milestone clause: forward milestones without own/inherited pin must sit at max(pred.end|start + gap); backward milestones without pin at min(successor.start - gap); gap is calendar time",
 ]
 
 
@@ -27,6 +27,8 @@ def chains(tier):
             for gap in (None, "30min", "90min", "1h"):
                 for onstart in (False, True):
                     yield {"kind": "ms", "L": L, "m": m, "gap": gap, "onstart": onstart}
+                # backward mirror: the milestone sits before a successor that starts mid-slot
+                yield {"kind": "msb", "L": L, "m": m, "gap": gap}
 
 
 def to_spec(it):
@@ -52,6 +54,16 @@ def to_spec(it):
                           {"id": "a", "effort": it["m"], "alloc": ["r1"], "deps": ["w"]},
                           {"id": "m", "milestone": True, "deps": [d]},
                           {"id": "after", "effort": 30, "alloc": ["r1"], "deps": ["m"]}]}
+    if k == "msb":
+        L = it["L"]
+        d = {"ref": "m"}
+        if it["gap"]:
+            d["gap"] = it["gap"]
+        return {"res_min": L if L != 60 else None, "alap": True, "resources": [{"id": "r1"}, {"id": "r2"}],
+                "tasks": [{"id": "a", "effort": 50, "alloc": ["r1"]},
+                          {"id": "m", "milestone": True, "deps": ["a"]},
+                          {"id": "after", "effort": it["m"], "alloc": ["r1"], "deps": [d], "end": "2025-01-17-17:00"},
+                          {"id": "other", "effort": 30, "alloc": ["r2"], "deps": ["m"], "end": "2025-01-17-12:00"}]}
     return c03.to_spec(it)
 
 
